@@ -191,22 +191,23 @@ def run_kani_unit(unit, scratch, tier, seed, repo, pid=None):
 def excerpt(out, key):
     """the result block of harness `key` from terse (threaded) output"""
     lines = out.split("\n")
-    th = None
-    for l in lines:
+    start, th = None, None
+    for i, l in enumerate(lines):
         m = re.match(r"^(?:Thread (\d+): )?Checking harness (\S+?)\.\.\.", l.strip())
         if m and m.group(2) == key:
-            th = m.group(1)
-    seg, on = [], False
-    for l in lines:
+            start, th = i, m.group(1)
+    if start is None:
+        return out[-2000:]
+    seg, on = [], th is None
+    for l in lines[start + 1:]:
         s = l.strip()
-        if th is not None and re.match(r"^Thread %s:\s*$" % th, s):
-            on = True; continue
-        if th is None and s.startswith("Checking harness " + key):
-            on = True; continue
-        if on and (s.startswith("Thread ") or s.startswith("Checking harness") or s.startswith("Manual Harness Summary")):
-            if seg: break
-        if on:
-            seg.append(l)
+        if not on:
+            if re.match(r"^Thread %s:\s*$" % th, s):
+                on = True
+            continue
+        if s.startswith("Thread ") or s.startswith("Checking harness") or s.startswith("Manual Harness Summary"):
+            break
+        seg.append(l)
     return ("harness " + key + "\n" + "\n".join(seg))[:4000]
 
 
@@ -230,7 +231,9 @@ def concrete_playback(cfg, sr, env, harness, mod, udir):
         open(f, "w").write(text[:idx] + "\n" + test + "\n}\n")
         cmd2 = ["cargo", "kani", "playback", "-p", cfg["package"], "-Z", "concrete-playback", "--", tname.group(1) if tname else ""]
         p2 = subprocess.run(cmd2, cwd=sr, env=env, capture_output=True, text=True, timeout=KANI_TIMEOUT)
-        tail = "\n".join((p2.stdout + p2.stderr).strip().split("\n")[-30:])
+        keep = [l for l in (p2.stdout + p2.stderr).split("\n")
+                if re.search(r"panicked|assertion|test result|^test |FAILED|failures:|overflow|index out of", l)]
+        tail = "\n".join(keep[-25:])
         return "concrete values found by Kani (as a unit test over the real function):\n" + test + \
                "\n---- `cargo kani playback` on the real code ----\n" + tail
     except Exception as e:  # replay is best effort; the violation is reported either way
